@@ -64,6 +64,17 @@ def gen(seed, tier="quick"):
         ks = [1000003 * (i + 1) % 99991 + 100000 for i in range(n)]
         src = "fn f() {\n    let mut t = 0\n" + "\n".join(f"    t = t + {k}" for k in ks) + "\n    return t\n}\nprintln(f())"
         add(f"consts-{n}", src, f"{wrap(sum(ks))}\n")
+    # a capturing nested function / lambda whose pool index follows n constants (MakeClosure's
+    # index is one byte), and a non-capturing one (LoadK, two bytes)
+    for n in around(254, 256) + [300, r.randrange(100, 250)]:
+        ks = [1000003 * (i + 1) % 99991 + 100000 for i in range(n)]
+        adds = "\n".join(f"    t = t + {k}" for k in ks)
+        for kind, decl in (("closure-fn", "    fn inner() { c = c + 1; return c }"),
+                           ("closure-lambda", "    let inner = fn() { c = c + 1; return c }"),
+                           ("plain-fn", "    fn inner() { return 1 }")):
+            src = f"fn outer() {{\n    let mut t = 0\n{adds}\n    let mut c = 0\n{decl}\n    return inner() + inner() + t + c\n}}\nprintln(outer())"
+            exp = wrap(sum(ks)) + (1 + 2 + 2 if kind != "plain-fn" else 2)
+            add(f"consts-then-{kind}-{n}", src, f"{wrap(exp)}\n")
     sizes = [2000, 9000, r.randrange(3000, 8000)] + ([40000] if tier == "thorough" else [])
     for n in sizes:
         body = "\n".join("    t = t + 1" for _ in range(n))
